@@ -261,7 +261,7 @@ def _replay(driver, path, tmpbase):
 def _explore(driver, modname, pid, tier, seed, jobs, tmpbase, t0, only):
     specs = driver.shards(tier, seed)
     if only:
-        specs = [s for s in specs if only in json.dumps(s)]
+        specs = [s for s in specs if only in json.dumps(s, default=str)]
     n = len(specs)
     order = list(range(n))
     if n:
